@@ -69,6 +69,17 @@ Example ex_C07_bash_backslash_regression :
 Proof. vm_compute. reflexivity. Qed.
 Print Assumptions ex_C07_bash_backslash_regression.
 
+(** pwsh: every string that contains no smart double quote (U+201C, U+201D, U+201E as UTF-8) -- the
+    exact class of the known finding below, tighter than the pairwise [admissible Pwsh]. *)
+Theorem C07_pwsh_exact :
+  forall s rest, smart_free s = true -> safe Pwsh rest = true ->
+    read Pwsh (append (make_string_constant Pwsh s) rest) = Some (s, rest).
+Proof. exact pwsh_roundtrip_exact. Qed.
+Check C07_pwsh_exact :
+  forall s rest, smart_free s = true -> safe Pwsh rest = true ->
+    read Pwsh (append (make_string_constant Pwsh s) rest) = Some (s, rest).
+Print Assumptions C07_pwsh_exact.
+
 (** KNOWN FINDING (pwsh.rs does not escape U+201C/U+201D/U+201E, which PowerShell's tokenizer
     treats as double quotes): the description [a(U+201D)b] is cut after [a]. *)
 Definition smart_quote_201D : string :=
